@@ -154,8 +154,8 @@ PROPS = {
         level="exploration",
         rule="bounded-exhaustive: all 46656 orders of length 6 over {parent becomes ready, Refilter(equal), Refilter(new), parent event, parent cache change, subscribe} x 12 variants (immediate/deferred x subscription/clone x node depth 1..3), the first list gated so that 'parent becomes ready' is a step; after every step Ready() of every node must be closed iff the readiness model says so, no event may precede Ready, the listing taken at the instant Ready is observed must equal the filtered parent content, caches/mirrors must match the reference (quick: every 40th order); plus rapid orders fired back-to-back under schedule perturbation incl. failing first lists (nothing ever ready, everything done). Non-trivial = the order has a Refilter before and after parent readiness, or a parent event/change after parent readiness (random: or a failing first list); distinct = (variant, order).",
         assumptions=["'Ready() not closed' is asserted at arbitrary instants (safe: it can only flip one way); 'Ready() closed' is awaited with a wedge bound"],
-        quick=[J("TestC08_Enum", shards=8, env={"VERIF_ENUM_STRIDE": "40"}), J("TestC08_Racy", checks=700, shards=4, procs=[2, 4, 8, 16])],
-        thorough=[J("TestC08_Enum", shards=16, timeout=2400), J("TestC08_Racy", checks=15000, shards=8, procs=[1, 2, 4, 16], timeout=1800)],
+        quick=[J("TestC08_Enum", shards=8, env={"VERIF_ENUM_STRIDE": "40"}), J("TestC08_Racy", checks=700, shards=4, procs=[2, 4, 8, 16]), J("TestC08_BlankListVersion", checks=150, shards=2, procs=[2, 8])],
+        thorough=[J("TestC08_Enum", shards=16, timeout=2400), J("TestC08_Racy", checks=15000, shards=8, procs=[1, 2, 4, 16], timeout=1800), J("TestC08_BlankListVersion", checks=4000, shards=4, procs=[1, 2, 4, 16], timeout=1800)],
     ),
     "C07": dict(
         level="exploration",
